@@ -141,7 +141,7 @@ def main():
         "setup_cmd": "./setup.sh",
         "hooks": {
             "guard": "cargo feature `verif` of the text-utils crate (off by default)",
-            "enable": "the harness crate /verif/harness depends on text-utils by path with features = [\"verif\"]; `cargo build --offline` in /verif/harness rebuilds /repo's working tree with hooks on",
+            "enable": "the harness crate /verif/harness depends on text-utils by path with features = [\"verif\", \"benchmark-utils\"] (the second is the repository's own feature: public re-exports of accumulate / run-length coding, used by extension X09 only); `cargo build --offline` in /verif/harness rebuilds /repo's working tree with hooks on",
             "baseline_off_cmd": "cd /repo && cargo test --workspace --no-fail-fast --offline",
             "source_commits": HOOK_COMMITS,
             "add_only": True,
